@@ -7,6 +7,8 @@ package mach
 import (
 	"net/url"
 	"path"
+	"regexp"
+	"unicode"
 	"crypto/sha512"
 	"encoding/base64"
 	"fmt"
@@ -451,6 +453,11 @@ func (m *M) check(b, route string, a Args, pre *snapshot, r *world.Result) {
 				m.violate("C09", "early-expiry", fmt.Sprintf("the session was idle for %v (< ExpireAfter %v) but was served as unauthenticated", pre.now.Sub(t0), cfg.ExpireAfter), b)
 			}
 		}
+		// K1: the stamp is stored with one-second resolution, so up to a second of the idle time can be lost
+		if t0, ok := m.lastAct[b]; ok && m.lastActU[b] == oldU && pre.now.Sub(t0) < cfg.ExpireAfter && pre.now.Sub(t0) >= cfg.ExpireAfter-time.Second &&
+			pre.sess["last_action"] != "" && r.Probe.PID != oldU {
+			m.violate("C09", "stamp-truncation", fmt.Sprintf("the session was idle for %v (< ExpireAfter %v, within the last second) but was served as unauthenticated", pre.now.Sub(t0), cfg.ExpireAfter), b)
+		}
 	}
 	if !r.Wrote || r.Panic != "" {
 		// nothing was flushed: the stamp in the jar is the one of the previous request, so is the harness' record
@@ -707,13 +714,7 @@ func (m *M) check(b, route string, a Args, pre *snapshot, r *world.Result) {
 
 	// ---------------- C17: no secret in storage or logs ------------------------------------------
 	if len(m.Secrets) > 0 {
-		for _, l := range r.LogLines {
-			for sec, kind := range m.Secrets {
-				if len(sec) >= 6 && strings.Contains(l, sec) {
-					m.violate("C17", "log:"+kind, fmt.Sprintf("a log line contains a %s in the clear", kind), b)
-				}
-			}
-		}
+		m.scanLogs(r, b)
 		for pid, u := range m.W.Store.Users {
 			if p0 := pre.users[pid]; p0 != nil && p0.Password == u.Password && p0.ConfirmSelector == u.ConfirmSelector && p0.RecoverSelector == u.RecoverSelector &&
 				p0.OTPs == u.OTPs && p0.RecoveryCodes == u.RecoveryCodes && len(u.Arbitrary) == len(p0.Arbitrary) {
@@ -743,27 +744,12 @@ func (m *M) check(b, route string, a Args, pre *snapshot, r *world.Result) {
 				}
 			}
 		}
-		for _, ml := range r.NewMail {
-			if ml.Token == "" {
-				continue
-			}
-			for _, to := range ml.To {
-				okTo := false
-				for _, u := range m.W.Store.Users {
-					if u.Email == to {
-						okTo = true
-					}
-					for _, sec := range u.Secondary {
-						if sec == to {
-							okTo = true
-						}
-					}
-				}
-				if !okTo {
-					m.violate("C17", "mail-recipient", fmt.Sprintf("a mailed token went to %q, which is no account's address", to), b)
-				}
-			}
-		}
+		m.checkMailRecipients(r, b)
+	}
+
+	// ---------------- C19: registration ---------------------------------------------------------
+	if route == "register" && cfg.Has("register") && r.Panic == "" {
+		m.checkRegister(b, a, pre, r)
 	}
 
 	// ---------------- C03: lock / confirm middlewares ----------------------------------
@@ -884,6 +870,18 @@ func (m *M) checkFault(b, route string, a Args, pre *snapshot, r *world.Result, 
 		!(route == "login" || route == "otplogin" || route == "oend" || route == "totpvalidate" || route == "smsvalidate" || route == "logout") {
 		m.violate("C07", "no-halfauth", fmt.Sprintf("backend call %d (%s) failed, and the remember-cookie login of %q is not marked half-authenticated", f.At, call, newU), b)
 	}
+	// (C08 under faults) a storage error while loading the user: 500, and the wrapped handler does not run
+	if route == "prot" && call == "Load" && f.Kind == "generic" && !cfg.ExpireMW {
+		if r.Probe != nil && r.Probe.Ran {
+			m.violate("C08", "storage-error-ran", "the user could not be loaded (storage error), yet the wrapped handler ran", b)
+		}
+		if r.Status != 500 {
+			m.violate("C08", "storage-error-status", fmt.Sprintf("the user could not be loaded (storage error): status %d instead of 500", r.Status), b)
+		}
+	}
+	// (C17 under faults) nothing the harness typed or was shown may turn up in a log line
+	m.scanLogs(r, b)
+	m.checkMailRecipients(r, b)
 	// recovery code accepted while still stored
 	if (route == "totpvalidate" || route == "smsvalidate") && a.RCode != "" && issued && !(mwAuth0 && post.Sess["halfauth"] == "true") {
 		if u0, u1 := pre.users[newU], m.W.Store.Users[newU]; u0 != nil && u1 != nil && recCodeValid(u0, a.RCode) && recCodeValid(u1, a.RCode) &&
@@ -929,4 +927,146 @@ func rememberLicenceLive(m *M, pre *snapshot, U string) bool {
 		}
 	}
 	return false
+}
+
+// checkMailRecipients (C17): a mailed token goes only to the address (or declared secondary
+// addresses) of the account it belongs to.
+func (m *M) checkMailRecipients(r *world.Result, b string) {
+	for _, ml := range r.NewMail {
+		if ml.Token == "" {
+			continue
+		}
+		// whose token is it?
+		var owner *world.User
+		if raw, err := base64.URLEncoding.DecodeString(ml.Token); err == nil && len(raw) == 64 {
+			sel := sha64(string(raw[:32]))
+			for _, u := range m.W.Store.Users {
+				if ml.Kind == "confirm" && u.ConfirmSelector == sel || ml.Kind == "recover" && u.RecoverSelector == sel {
+					owner = u
+				}
+			}
+		}
+		for _, to := range ml.To {
+			okTo := false
+			for _, u := range m.W.Store.Users {
+				if owner != nil && u != owner {
+					continue
+				}
+				if u.Email == to {
+					okTo = true
+				}
+				for _, sec := range u.Secondary {
+					if sec == to {
+						okTo = true
+					}
+				}
+			}
+			if !okTo {
+				who := "no account's address"
+				if owner != nil {
+					who = fmt.Sprintf("not the address of %q (%q), whose token it is", owner.PID, owner.Email)
+				}
+				m.violate("C17", "mail-recipient", fmt.Sprintf("a mailed %s token went to %q: %s", ml.Kind, to, who), b)
+			}
+		}
+	}
+}
+
+// shippedPolicy: the password rule the shipped body reader configures (8+ bytes, an upper, a lower,
+// a digit, a symbol, no white space), restated with the unicode package.
+func shippedPolicy(pw string) bool {
+	var up, lo, dg, sy, ws int
+	for _, c := range pw {
+		switch {
+		case unicode.IsLetter(c):
+			if unicode.IsUpper(c) {
+				up++
+			} else {
+				lo++
+			}
+		case unicode.IsDigit(c):
+			dg++
+		case unicode.IsSpace(c):
+			ws++
+		default:
+			sy++
+		}
+	}
+	return len(pw) >= 8 && up >= 1 && lo >= 1 && dg >= 1 && sy >= 1 && ws == 0
+}
+
+var shippedEmail = regexp.MustCompile(`.*@.*\.[a-z]+`)
+
+// checkRegister (C19): the harness' own statement of what a registration request may do.
+func (m *M) checkRegister(b string, a Args, pre *snapshot, r *world.Result) {
+	post := m.W.B(b)
+	oldU, newU := pre.sess["uid"], post.Sess["uid"]
+	var created []string
+	for pid := range m.W.Store.Users {
+		if pre.users[pid] == nil {
+			created = append(created, pid)
+		}
+	}
+	// what was actually submitted (extra fields may override the standard ones)
+	_, _, form := m.spec("register", a)
+	subPW, hasPW := form["password"]
+	subPW2, hasPW2 := form["confirm_password"]
+	pw2ok := hasPW2 && subPW2 == subPW
+	expected := hasPW && shippedPolicy(subPW) && pw2ok && a.PID != "" && shippedEmail.MatchString(a.PID)
+	existed := pre.users[a.PID] != nil
+	if len(created) > 1 || len(created) == 1 && created[0] != a.PID {
+		m.violate("C19", "created-wrong", fmt.Sprintf("a registration for %q created %v", a.PID, created), b)
+	}
+	if !expected && len(created) > 0 {
+		m.violate("C19", "invalid-created", fmt.Sprintf("a registration that fails validation (password sent=%v, meets the policy=%v, confirmation matches=%v, identifier valid=%v) created %v", hasPW, shippedPolicy(subPW), pw2ok, shippedEmail.MatchString(a.PID), created), b)
+	}
+	if expected && !existed && len(created) == 0 && r.Wrote {
+		m.violate("C19", "valid-rejected", fmt.Sprintf("a valid registration for the new identifier %q created nothing", a.PID), b)
+	}
+	for pid, u0 := range pre.users {
+		u1 := m.W.Store.Users[pid]
+		if u1 == nil {
+			m.violate("C19", "existing-touched", fmt.Sprintf("a registration request removed the account %q", pid), b)
+			continue
+		}
+		if m.userLine(u0) != m.userLine(u1) {
+			m.violate("C19", "existing-touched", fmt.Sprintf("a registration request for %q changed the existing account %q", a.PID, pid), b)
+		}
+	}
+	byCookie := m.Cfg.RememberMW && m.Cfg.Has("remember") && oldU == "" && rememberLicence(pre, newU) // the remember middleware, not the registration
+	if existed && newU != oldU && newU != "" && !byCookie {
+		m.violate("C19", "existing-login", fmt.Sprintf("registering the existing identifier %q changed the session identity to %q", a.PID, newU), b)
+	}
+	if len(created) == 1 {
+		u := m.W.Store.Users[created[0]]
+		if bcrypt.CompareHashAndPassword([]byte(u.Password), []byte(subPW)) != nil {
+			m.violate("C19", "hash-mismatch", "the stored hash of the new account does not verify the submitted password", b)
+		}
+		for k := range u.Arbitrary {
+			if k != "email" {
+				m.violate("C19", "extra-field", fmt.Sprintf("the non-whitelisted field %q was stored with the new account", k), b)
+			}
+		}
+	}
+}
+
+// scanLogs (C17): no log line of this request contains a secret the harness typed or was shown
+// (or a live token the server generated in a request whose mail then failed).
+func (m *M) scanLogs(r *world.Result, b string) {
+	for _, l := range r.LogLines {
+		for sec, kind := range m.Secrets {
+			if len(sec) < 6 {
+				continue
+			}
+			// in the clear, URL-escaped (as in a mailed link), or without its base64 padding
+			core := strings.TrimRight(sec, "=")
+			if strings.Contains(l, sec) || strings.Contains(l, url.QueryEscape(sec)) || len(core) >= 20 && strings.Contains(l, core) {
+				line := l
+				if len(line) > 200 {
+					line = line[:200] + "…"
+				}
+				m.violate("C17", "log:"+kind, fmt.Sprintf("a log line contains a %s in the clear: %q", kind, line), b)
+			}
+		}
+	}
 }
